@@ -454,7 +454,7 @@ func (cm *clientMedia) writePacketRTCP(pkt rtcp.Packet) error {
 
 	maxPlainPacketSize := cm.c.MaxPacketSize
 	if cm.srtpOutCtx != nil {
-		maxPlainPacketSize -= srtcpOverhead
+		maxPlainPacketSize -= srtcpOverhead + len(cm.srtpOutCtx.mki)
 	}
 
 	if len(buf) > maxPlainPacketSize {
